@@ -20,7 +20,8 @@ Skipped(ev) ==
   /\ CASE ev.a = "new" -> ~IsNull(h)
        [] ev.a = "bufinsert" -> rec[h].typ # "elem" \/ Shared(h)
        [] ev.a \in {"bufcut", "bufset"} -> rec[h].typ # "elem" \/ Shared(h) \/ rec[h].imm
-       [] ev.a \in {"insert", "slice", "detach"} -> rec[h].typ # "elem"
+       [] ev.a \in {"insert", "detach"} -> rec[h].typ # "elem"
+       [] ev.a = "slice" -> IsNull(h)
        [] OTHER -> FALSE
   /\ UNCHANGED <<val, vtyp, cnt, rec, share, ctr>>
   /\ Answer(ev.a, ev.arg, "skipped", FALSE)
@@ -29,7 +30,7 @@ Step(ev) ==
   IF "obs" \notin DOMAIN ev THEN FALSE ELSE
   IF ev.a # "init" /\ ev.obs.ret = "skipped" THEN Skipped(ev) ELSE
   CASE ev.a = "init"      -> Reset
-    [] ev.a = "new"       -> New(ev.arg.h, ev.arg.data, ev.arg.imm = 1, ev.arg.nc = 1)
+    [] ev.a = "new"       -> New(ev.arg.h, ev.arg.data, ev.arg.imm = 1, ev.arg.nc = 1, ev.arg.typ)
     [] ev.a = "settyped"  -> SetTyped(ev.arg.h, ev.arg.data, ev.arg.off, ev.arg.zero, ev.arg.fail, ev.arg.fm)
     [] ev.a = "bufset"    -> BufSet(ev.arg.h, ev.arg.pos, ev.arg.data, ev.arg.zero, ev.arg.fail, ev.arg.fm)
     [] ev.a = "bufcut"    -> BufCut(ev.arg.h, ev.arg.off, ev.arg.n)
